@@ -283,6 +283,28 @@ theorem SO3_add_history_extra (eps : ℝ) (as : List (Vec3 ℝ × List ℝ)) (X 
     simp only [List.foldl_cons, List.map_cons, Option.bind_some, SO3_add_eq_Retr]
     exact ih _
 
+
+/-- one `add_` call as the caller sees it: a call that fails (too few components — the model's `none`, the code raises) leaves
+the object as it was -/
+noncomputable def SO3AddStep (eps : ℝ) (X : Quat ℝ) (o : List ℝ) : Quat ℝ := (SO3Add eps X o).getD X
+
+/-- **failing calls are atomic over any history**: a history of `add_` calls in which some calls fail equals the history with
+the failing calls removed (whatever their number and position). -/
+theorem SO3_add_atomic_history (eps : ℝ) (os : List (List ℝ)) (X : Quat ℝ) :
+    os.foldl (SO3AddStep eps) X = (os.filter (fun o => decide (3 ≤ o.length))).foldl (SO3AddStep eps) X := by
+  induction os generalizing X with
+  | nil => rfl
+  | cons o os ih =>
+    by_cases h : 3 ≤ o.length
+    · simp only [List.foldl_cons, List.filter_cons, h, decide_true, if_true]
+      exact ih _
+    · have hs : o.length < 3 := by omega
+      have : SO3AddStep eps X o = X := by
+        unfold SO3AddStep; rw [SO3_add_short eps X o hs]; rfl
+      simp only [List.foldl_cons, List.filter_cons, h, decide_false, this]
+      exact ih X
+
+
 /-! ## Jinvp -/
 
 theorem SO3_Jinvp_eq (eps : ℝ) (X : Quat ℝ) (p : Vec3 ℝ) :
